@@ -534,7 +534,8 @@ def stepFixed (mx : Nat) (a : Arr) (L : Log) (op : Op) : Res :=
     { r with log := { r.log with dtor := r.log.dtor + 1 } }          -- ~valueCopy
   | none => step mx a L op
 
-/-- the second proposed repair (`notes/C26_F3b_fix.diff`):
+/-- the second repair (`notes/C26_F3b_fix.diff`, applied in /repo as f70ab3a8) — together with `stepFixed`
+this is **the code as it is now**:
 * `push_back(T&&)` with an element argument that must reallocate: remember the element's index, grow, then
   move from the element's *new* location;
 * `emplace_back` (when it reallocates) and `emplace`: build the new element in a temporary first. -/
@@ -557,10 +558,10 @@ def stepFixed2 (mx : Nat) (a : Arr) (L : Log) : Op → Res
     { r with log := { r.log with dtor := r.log.dtor + 1 } }
   | op => stepFixed mx a L op
 
-/-- operation sequences with the repaired algorithm (the code as it is after the `fix:` commit) -/
-def runFixed (mx : Nat) (a : Arr) (L : Log) : List Op → Arr × Log
+/-- operation sequences with the code as it is now (/repo after 06f34988 and f70ab3a8) -/
+def runCurrent (mx : Nat) (a : Arr) (L : Log) : List Op → Arr × Log
   | [] => (a, L)
-  | op :: ops => let r := stepFixed mx a L op; runFixed mx r.arr r.log ops
+  | op :: ops => let r := stepFixed2 mx a L op; runCurrent mx r.arr r.log ops
 
 /-! ## the specification: what `std::vector` does -/
 
@@ -676,10 +677,10 @@ def wspec (vss : List (List Elt)) : WOp → List (List Elt)
   | .viewCopy i off j off2 len =>
     vss.set i (splice (vss.getD i []) off (off + len) (((vss.getD j []).drop off2).take len))
 
-/-- world step with the repaired single-array algorithm -/
-def wstepFixed (mx : Nat) (w : World) : WOp → World
+/-- world step with the single-array algorithm of the current code (`stepFixed2`) — what the driver executes -/
+def wstepCurrent (mx : Nat) (w : World) : WOp → World
   | .on k op =>
-    let r := stepFixed mx (w.get k) w.log op
+    let r := stepFixed2 mx (w.get k) w.log op
     { arrs := w.arrs.set k r.arr, log := r.log, thrown := r.thrown }
   | op => wstep mx w op
 
